@@ -88,7 +88,7 @@ def retainOracle (f : Formula) (cols : List Nat) (o : Options) (rows : List Row)
     | none => none
 
 /-- the table oracle: rows against the brute-force meaning of the formula -/
-def tableOracle (f : Formula) (cols : List Nat) (o : Options) (rows : List Row) : Option String :=
+def tableOracle (f : Formula) (cols : List Nat) (o : Options) (rows : List Row) (c07 : Bool := false) : Option String :=
   if o.retain != .any then retainOracle f cols o rows else
   if o.benchmark == some 0 then none else
   let U := sortNats (dedup (SemExec.allVars f ++ cols))
@@ -112,6 +112,10 @@ def tableOracle (f : Formula) (cols : List Nat) (o : Options) (rows : List Row) 
         cov.length != want || cov.any (fun r => r.result != value m)) with
       | some m => some s!"assignment {m} of the columns is covered by {(rows.filter (fun r => rowCovers r m)).length} row(s) with results {(rows.filter (fun r => rowCovers r m)).map (·.result)}; the formula's value is {value m}, filter {repr o.filter}"
       | none => none
+    else if !c07 then
+      -- `-m` is C07's clause, not C10's (C10 speaks of the table of the formula): under C10 a table printed with -m is
+      -- compared with the model of `main` only
+      none
     else
       -- `-m`: one satisfying cube
       let sat := masks.any value
@@ -147,7 +151,7 @@ def stdoutTie (outHex : String) (mOut : Option Output) (header rows vlines rline
   | _, _ => (none, none)
 
 /-- `run|text|cls|ord|ocls|opts|exit|header|rows|vlines|rlines|same|gen|stdout` -/
-def handleC10 (fields : List String) : Verdict :=
+def handleC10 (fields : List String) (c07 : Bool := false) : Verdict :=
   match fields with
   | ["run", text, cls, otext, ocls, opts, exitClass, header, rows, vlines, rlines, same, gen, outHex] =>
     match decodeText text cls, parseOpts opts, readRows rows with
@@ -183,12 +187,20 @@ def handleC10 (fields : List String) : Verdict :=
           | some ts =>
             match Parser.newWithEnv ts with
             | some p =>
-              let f := match parseFormula gen with | some g => g | none => p.formula
+              -- `gen`: the generator's tree with the real tokenizer's ids, `@`, the real variable table (name:id)
+              let genTree := (gen.splitOn "@").headD ""
+              let realVars : List (String × Nat) := match gen.splitOn "@" with
+                | [_, tbl] => ((tbl.splitOn ",").filterMap (fun e => match e.splitOn ":" with
+                    | [n, i] => (match (unhex n).bind String.fromUTF8?, i.toNat? with
+                      | some n, some i => some (n, i) | _, _ => none)
+                    | _ => none))
+                | _ => p.vars
+              let f := match parseFormula genTree with | some g => g | none => p.formula
               let specFreeIds := sortNats (dedup (freeVarsSpec f))
-              let specNames := specFreeIds.filterMap (fun id => (p.vars.find? (fun v => v.2 == id)).map (·.1))
+              let specNames := specFreeIds.filterMap (fun id => (realVars.find? (fun v => v.2 == id)).map (·.1))
               let oh := if o.truthtable && header != hexNames (specNames ++ ["*"]) then
                   some s!"header {header} but the free variables in order are {hexNames (specNames ++ ["*"])}" else none
-              let ot := if o.truthtable then tableOracle f specFreeIds o realRows else none
+              let ot := if o.truthtable then tableOracle f specFreeIds o realRows c07 else none
               let ov := if o.truthtable && o.vars && o.filter != .false_ then
                   let expect := (realRows.filter (·.result)).map (vlineOfRow (specNames ++ ["*"]))
                   if String.intercalate ";" (expect.map hexNames) != vlines then some "-v does not list exactly the satisfying rows" else none
